@@ -92,9 +92,15 @@ def showOutp : Outp → String
   | .condErr id => "CE" ++ toString id
   | .hitInvalid id => "HI" ++ toString id
 
-def showOutcome : Outcome → String
-  | .stop a => "stop " ++ hex a
-  | .entry (some a) => "entry " ++ hex a
+/-- position tag of the event the debuggee is stopped at (the last consumed one) -/
+def tagOf (s : DapBp.St) : String :=
+  match s.τ[s.pos - 1]? with
+  | some e => toString (e.2 / 8)
+  | none => "?"
+
+def showOutcome (s : DapBp.St) : Outcome → String
+  | .stop a => "stop " ++ hex a ++ "@" ++ tagOf s
+  | .entry (some a) => "entry " ++ hex a ++ "@" ++ tagOf s
   | .entry none => "entry -"
   | .exit => "exit"
   | .err => "err"
@@ -111,7 +117,7 @@ def runCmd (st : St) (c : Cmd) : St × String :=
     | .flags f => showFlags f ++ " i=" ++ showI3 s'
     | .run o r =>
       if wasLatched then "o=- err i=-"
-      else "o=" ++ encList showOutp o ++ " " ++ showOutcome r ++ " i=" ++ showI3 s'
+      else "o=" ++ encList showOutp o ++ " " ++ showOutcome s' r ++ " i=" ++ showI3 s'
   ({ st with s := s' }, txt)
 
 def step (st : St) : List String → St × String
